@@ -1,2 +1,6 @@
 import LoomVerif.Model.VV
 import LoomVerif.Model.Path
+import LoomVerif.Model.Threads
+import LoomVerif.Model.Atomic
+import LoomVerif.Model.Num
+import LoomVerif.Model.AtomicApi
